@@ -434,7 +434,9 @@ static ogg_int64_t _initial_pcmoffset(OggVorbis_File *vf, vorbis_info *vi){
 
   while(1){
     ogg_packet op;
-    if(_get_next_page(vf,&og,-1)<0)
+    ogg_int64_t llret=_get_next_page(vf,&og,-1);
+    if(llret==OV_EREAD)return(OV_EREAD);
+    if(llret<0)
       break; /* should not be possible unless the file is truncated/mangled */
 
     if(ogg_page_bos(&og)) break;
@@ -507,6 +509,7 @@ static int _bisect_forward_serialno(OggVorbis_File *vf,
     while(endserial != serialno){
       endserial = serialno;
       searched=_get_prev_page_serial(vf,searched,currentno_list,currentnos,&endserial,&endgran);
+      if(searched<0)return(searched);
     }
 
     vf->links=m+1;
@@ -567,6 +570,7 @@ static int _bisect_forward_serialno(OggVorbis_File *vf,
     while(testserial != serialno){
       testserial = serialno;
       searched = _get_prev_page_serial(vf,searched,currentno_list,currentnos,&testserial,&searchgran);
+      if(searched<0)return(searched);
     }
 
     ret=_seek_helper(vf,next);
@@ -581,8 +585,11 @@ static int _bisect_forward_serialno(OggVorbis_File *vf,
        starts with a raw seek */
     pcmoffset = _initial_pcmoffset(vf,&vi);
 
-    ret=_bisect_forward_serialno(vf,next,vf->offset,end,endgran,endserial,
-                                 next_serialno_list,next_serialnos,m+1);
+    if(pcmoffset<0)
+      ret=pcmoffset;
+    else
+      ret=_bisect_forward_serialno(vf,next,vf->offset,end,endgran,endserial,
+                                   next_serialno_list,next_serialnos,m+1);
     if(ret){
       /* this link's headers were never handed over to vf */
       vorbis_info_clear(&vi);
@@ -635,6 +642,7 @@ static int _open_seekable2(OggVorbis_File *vf){
 
   /* fetch initial PCM offset */
   ogg_int64_t pcmoffset = _initial_pcmoffset(vf,vf->vi);
+  if(pcmoffset<0)return((int)pcmoffset);
 
   /* we can seek, so set out learning all about this file */
   if(vf->callbacks.seek_func && vf->callbacks.tell_func){
@@ -1368,6 +1376,13 @@ int ov_raw_seek(OggVorbis_File *vf,ogg_int64_t pos){
 
       if(!lastblock){
         pagepos=_get_next_page(vf,&og,-1);
+        if(pagepos==OV_EREAD){
+          /* not the end of the stream: the read callback failed */
+          ogg_stream_clear(&work_os);
+          vf->pcm_offset=-1;
+          _decode_clear(vf);
+          return(OV_EREAD);
+        }
         if(pagepos<0){
           vf->pcm_offset=ov_pcm_total(vf,-1);
           break;
